@@ -252,7 +252,7 @@ def apply_op(t, op):
 
 
 IN_PLACE = ("cut_out", "cut_off", "split_child_at", "squash_in", "slide_in", "extend_until", "remove_by", "tie_by", "tie_all",
-            "set_tag", "del_tag", "set_dur", "child")
+            "set_tag", "del_tag", "set_dur", "child", "seti", "deli")
 
 
 def apply_op1(t, op):
@@ -305,6 +305,30 @@ def apply_op1(t, op):
     if k == "tie_all":
         # no restriction to leaves: neighbouring containers are merged too (the survivor's duration is SET to the total)
         return t.tie_by(tie_of(op[1]), event_to_remove=op[2] in ("1", "true")), []
+    if k == "geti":
+        r = t[int(op[1])]
+        return r, [["recv", snap(t)]]
+    if k == "seti":
+        t[int(op[1])] = build(op[2])
+        return t, []
+    if k == "deli":
+        del t[int(op[1])]
+        return t, []
+    if k == "pyslice":
+        a, b = (None if x == "none" else int(x) for x in op[1:3])
+        r = t[a:b]
+        return r, [["recv", snap(t)]]
+    if k == "mul":
+        n = int(op[1])
+        r = t * n
+        extra = [["recv", snap(t)]]
+        if len(t) and any(r[i] is not t[i % len(t)] for i in range(len(r))):
+            extra.append(["repetition-does-not-repeat-the-children-themselves"])
+        return r, extra
+    if k == "gadd":
+        o = build(op[1])
+        r = t + o
+        return r, [["recv", snap(t)], ["other", snap(o)]]
     if k == "set_tag":
         t[mk_tag(int(op[1]))] = build(op[2])
         return t, []
